@@ -2,7 +2,7 @@
    Statements only; proofs in Proofs/SliceProofs.v.  Integer ticks; full_score = every chord has at least one
    part and every part lasts as long as its chord (the statement's guard), durations >= 0. *)
 From ML Require Import Spec.RenderSpec.
-From ML Require Import Model.Types gen.Tables Model.Pitch Model.Rel Model.Render Model.Slice Proofs.RenderProofs Proofs.SliceProofs Proofs.SliceContent Proofs.SliceZero Proofs.SliceRejoin Proofs.SliceScore.
+From ML Require Import Model.Types gen.Tables Model.Pitch Model.Rel Model.Render Model.Slice Proofs.RenderProofs Proofs.SliceProofs Proofs.SliceContent Proofs.SliceZero Proofs.SliceRejoin Proofs.SliceScore Proofs.RenderTonProofs Proofs.RenderOctave Proofs.SliceSound.
 From Coq Require Import Lia.
 Open Scope Z_scope.
 Open Scope list_scope.
@@ -82,6 +82,28 @@ Proof. exact windows_rejoin. Qed.
 Theorem C12_rejoin_sounds_the_same : forall c v time a t b tail ref, positive v -> a <= time -> time + part_dur v <= b ->
   sounding ref (part_items (clip_list v time a t ++ clip_list v time t b) c time ++ tail) = sounding ref (part_items v c time ++ tail).
 Proof. exact rejoin_sounds_the_same. Qed.
+
+(* WHAT THE WINDOW SOUNDS (one part under one chord; notes that need no reference pitch: scale, chromatic, chord-tone, bass-tone and
+   absolute notes, rests, continuations; positive durations): the sounding notes (C03: pitch, onset, duration with its continuations,
+   velocity) of the window [a, b) are exactly those of the part that START inside the window, clipped at b and shifted by -a; a note
+   already sounding at a has become a continuation, which sounds nothing by itself.  Any clock t of the part, any reference pitches. *)
+Theorem C12_window_sounding : forall a b c, a < b -> forall v t ref ref' sl, positive v ->
+  forallb (item_ok plain_pitched) (part_items v c t) = true ->
+  sounding ref (part_items v c t) = Some sl ->
+  sounding ref' (part_items (clip_list v t a b) c (Z.max t a - a)) = Some (filter_map (win a b) sl).
+Proof. exact window_sounding. Qed.
+
+(* non-vacuity: s0 (2) + l (1) + s2 (3) + r (1) + s4 (2) under I of C major, window [1, 7): s0 was sounding at 1 and is silent in the
+   window; s2 starts at 3 -> 2; s4 starts at 7: outside.  Window [0, 4): s0 keeps its continuation (3), s2 is clipped to 1 *)
+Example C12_ex_window_sounding :
+  let nt k v du := mkTN (mkP k Abs v 0 None None) du 66 in
+  let c := mkC 0 (bare "") (mkT 0 MMaj 0) 0 in
+  let v := [nt KS 0 2; nt KL 0 1; nt KS 2 3; nt KR 0 1; nt KS 4 2] in
+  sounding None (part_items v c 0) = Some [mkSN 0 0 3 66; mkSN 4 3 3 66; mkSN 7 7 2 66] /\
+  sounding None (part_items (clip_list v 0 1 7) c 0) = Some [mkSN 4 2 3 66] /\
+  filter_map (win 1 7) [mkSN 0 0 3 66; mkSN 4 3 3 66; mkSN 7 7 2 66] = [mkSN 4 2 3 66] /\
+  sounding None (part_items (clip_list v 0 0 4) c 0) = Some [mkSN 0 0 3 66; mkSN 4 3 1 66].
+Proof. vm_compute. repeat split; reflexivity. Qed.
 
 (* AT SCORE LEVEL.  The timeline of a part pairs each of its notes with the chord it is written under, chord after chord.
    For a score whose chords have parts with positive note lengths, and a (non-drum) part present in every chord and lasting
